@@ -26,8 +26,9 @@ def strip_versions(o):
 
 def run(ck, tier):
     ck.rule("R-C18-length", "effects: in make_title_case the output buffer is created as a copy of the span's characters, receives only element stores (no push/insert/remove/truncate/extend/resize/drain) and is the returned value; make_title_case_str converts chars<->String without filtering")
+    ck.rule("R-C18-first", "the first word-like token is capitalised whatever it is: the word loop compares the ordinal of the word-like token (the enumerate() counter over iter_word_likes()) with 0, and the true edge of that test reaches the upper-casing store before the next iteration on every path")
     ck.rule("R-C18-caseonly", "every store output[i] = v has v = to_ascii_uppercase/lowercase of output[i] at the same index expression, or an element of the dictionary's canonical capitalisation of that same word under the is_proper_noun guard")
-    ck.not_decided += ["idempotence and the first-letter clause (depend on should_capitalize_token's values)", "in-bounds-ness of correct_caps[idx]"]
+    ck.not_decided += ["idempotence (depends on should_capitalize_token's values)", "in-bounds-ness of correct_caps[idx]"]
     p = facts.load()
     byk = fns_by_key(p)
     fs = byk.get("harper_core::title_case::make_title_case")
@@ -129,3 +130,83 @@ def run(ck, tier):
         ck.decide(rule, "make_title_case:store:canonical-copy", ok, c.span,
                   "*c = correct_caps[idx] over output[word span].iter_mut()=%s, under is_proper_noun=%s, correct_caps = dict.get_correct_capitalization_of(the word's own text)=%s/%s" % (over_output, guard, caps_ok, from_caps))
     ck.floor(rule, "store sites into the output buffer", n_sites, 3)
+
+
+    _first(ck, p, byk)
+
+def _first(ck, p, byk):
+    rule = "R-C18-first"
+    fs = byk.get("harper_core::title_case::make_title_case")
+    if not fs:
+        return
+    f = fs[0]
+    cfg = Cfg(f)
+    pv = Prov(f)
+    ups = [bi for bi, t in f.calls() if inst_of(t).endswith("char::methods::{impl}::to_ascii_uppercase")]
+    eqs = []
+    for bi, b in enumerate(f.blocks):
+        if b["cleanup"]:
+            continue
+        for sx in b["s"]:
+            if sx["k"] == "assign" and sx["rv"]["k"] == "bin" and sx["rv"]["op"] == "Eq":
+                a, c = sx["rv"]["a"], sx["rv"]["b"]
+                zero = [x for x in (a, c) if "k" in x and str(x["k"].get("int")) == "0"]
+                other = [x for x in (a, c) if "k" not in x]
+                if len(zero) == 1 and len(other) == 1 and f.local_tystr(place_of(other[0])[0]) == "usize":
+                    eqs.append((bi, sx, other[0]))
+    if not ups:
+        ck.refuted(rule, "anchor-missing:upper-casing-store", f.span, "no to_ascii_uppercase in make_title_case")
+        return
+    ordinal, position = [], []
+    for bi, sx, op in eqs:
+        roots = arg_roots(f, pv, op)
+        names = {last(norm(o[3] or o[2] or "")) for o in roots if o[0] == "call"}
+        if "enumerate" in names and "iter_word_likes" in names and "next" in names:
+            ordinal.append((bi, sx))
+        elif names & {"iter_word_like_indices", "iter_word_indices", "position", "first_word_like_index"} or ("next" in names and "enumerate" not in names):
+            position.append((bi, sx, sorted(names)))
+    heads = cfg.natural_loops()
+    if ordinal:
+        bi, sx = ordinal[0]
+        t = f.blocks[bi]["t"]
+        reach_ok = False
+        if t["k"] == "switch":
+            # the edge taken when the comparison is true
+            tgt = [x for v, x in t["targets"] if str(v) != "0"] if isinstance(t.get("targets"), list) else []
+            tgt = tgt or ([t["otherwise"]] if t.get("otherwise") is not None else [])
+            inside = [h for h, body in heads.items() if bi in body]
+            head = max(inside, key=lambda h: len(heads[h])) if inside else None
+            if tgt and head is not None:
+                def passes_upper(x):
+                    return x in ups or cfg.path(x, {head}, avoid=set(ups)) is None
+                reach_ok = True
+                for x in tgt:
+                    if passes_upper(x):
+                        continue
+                    # `a || b || c` lowering: the true arm stores `true` into a flag that a later switch tests
+                    flags, y = set(), x
+                    for _ in range(6):
+                        for s2 in f.blocks[y]["s"]:
+                            if s2["k"] == "assign" and len(s2["lhs"]) == 1 and s2["rv"]["k"] == "use" and "k" in s2["rv"]["op"] and s2["rv"]["op"]["k"].get("txt") == "true":
+                                flags.add(s2["lhs"][0])
+                        if f.blocks[y]["t"]["k"] != "goto":
+                            break
+                        y = f.blocks[y]["t"]["target"]
+                    ok_x = False
+                    for b2 in heads[head]:
+                        t2 = f.blocks[b2]["t"]
+                        if t2["k"] != "switch" or not place_of(t2["discr"]):
+                            continue
+                        l2 = place_of(t2["discr"])[0]
+                        srcs = {l2} | {place_of(x2["rv"]["op"])[0] for (b3, si, kind, x2) in pv.defs.get(l2, []) if kind == "assign" and x2["rv"]["k"] == "use" and place_of(x2["rv"]["op"])}
+                        if srcs & flags:
+                            tt = [x3 for v, x3 in t2["targets"] if str(v) != "0"] or ([t2["otherwise"]] if t2.get("otherwise") is not None else [])
+                            if tt and all(passes_upper(x3) for x3 in tt) and cfg.path(x, {b2}, avoid={head}) is not None:
+                                ok_x = True
+                    reach_ok = reach_ok and ok_x
+        ck.decide(rule, "make_title_case:first-word", reach_ok, f.loc(sx["ln"]), "`ordinal == 0` on the enumerate() counter of iter_word_likes(); its true edge reaches the upper-casing store before the next iteration on every path: %s" % reach_ok)
+    elif position:
+        bi, sx, names = position[0]
+        ck.refuted(rule, "make_title_case:first-word", f.loc(sx["ln"]), "the first-word test compares a token position (%s) with 0: a title that opens with a quote, bracket or blank has its first word at a later position, so a leading `the`/`of`/`and` stays lower-case" % ", ".join(names))
+    else:
+        ck.refuted(rule, "anchor-missing:first-word-test", f.span, "no comparison of a word ordinal with 0 found in make_title_case: the clause `the first word is always capitalised` has no mechanism the check can see (fail closed)")
